@@ -54,6 +54,12 @@ def witness_source(tier, alloc):
     for k in (0, 1, 3, 12):
         L.append("pub const fn c_list_%d() -> GenericArray<u32, U%d> { arr![%s] }" % (k, k, ", ".join(str(i) for i in range(k))))
     L.append("pub fn w_list_noncopy() -> GenericArray<NC, U2> { arr![nc(), nc()] }")
+    # the list denotes an array expression: a temporary made inside an element expression lives as long as it would in `[e0, ..]` written in the
+    # same place - to the end of the enclosing statement - so an element may borrow from it while the array is handed on in that statement
+    L.append("pub struct Tmp(pub u32); impl Drop for Tmp { fn drop(&mut self) {} } impl Tmp { #[inline(never)] pub fn r(&self) -> &u32 { &self.0 } }")
+    L.append("#[inline(never)] pub fn takes(a: GenericArray<&u32, U2>) -> u32 { *a[0] + *a[1] }")
+    L.append("pub fn w_list_temporaries() -> u32 { takes(arr![Tmp(3).r(), Tmp(4).r()]) }")
+    L.append("pub fn w_list_temporaries_native() -> u32 { takes(GenericArray::from_array([Tmp(3).r(), Tmp(4).r()])) }")
     for n in REPEATS:
         L.append("pub fn w_repty_%d() -> GenericArray<u32, U%d> { arr![x(); U%d] }" % (n, n, n))
         L.append("pub const fn c_repty_%d() -> GenericArray<u32, U%d> { arr![5u32; U%d] }" % (n, n, n))
